@@ -144,6 +144,8 @@ class Evolver:
                 name = self.pick(["utf8", "utf16", "is64", "sha256", "point3", "x", "v2", "base64"]) + self.pick(WORDS_U + ["D", "Bit", "X"])
             else:
                 name = self.pick(WORDS_L) + "".join(self.pick(WORDS_U) for _ in range(self.draw(st.integers(1, 2))))
+            if (name in self.taken_props or name in local) and name[-1].isupper():
+                continue   # (a one-letter last word followed by more words would be an acronym: point3D + Alpha)
             if name in self.taken_props or name in local:
                 # letter-only disambiguation (names must stay lowerCamel words)
                 self.counter += 1
